@@ -26,4 +26,55 @@ impl<K: Eq, V> HashMap<K, V> {
   pub fn keys(&self) -> Box<dyn Iterator<Item = &K> + '_> { Box::new(self.iter().map(|(k, _)| k)) }
   pub fn values(&self) -> Box<dyn Iterator<Item = &V> + '_> { Box::new(self.iter().map(|(_, v)| v)) }
   pub fn retain<F: FnMut(&K, &mut V) -> bool>(&mut self, mut f: F) { self.items.retain_mut(|(k, v)| f(k, v)) }
+  // the rest of the std API that a change of the crate may reasonably start to use (same order convention)
+  fn ordered(v: Vec<(K, V)>) -> Vec<(K, V)> { if REVERSE.load(Ordering::Relaxed) { v.into_iter().rev().collect() } else { v } }
+  pub fn drain(&mut self) -> std::vec::IntoIter<(K, V)> { Self::ordered(std::mem::take(&mut self.items)).into_iter() }
+  pub fn iter_mut(&mut self) -> Box<dyn Iterator<Item = (&K, &mut V)> + '_> {
+    let it = self.items.iter_mut().map(|(k, v)| (&*k, v));
+    if REVERSE.load(Ordering::Relaxed) { Box::new(it.rev()) } else { Box::new(it) }
+  }
+  pub fn values_mut(&mut self) -> Box<dyn Iterator<Item = &mut V> + '_> { Box::new(self.iter_mut().map(|(_, v)| v)) }
+  pub fn into_keys(self) -> std::vec::IntoIter<K> { Self::ordered(self.items).into_iter().map(|(k, _)| k).collect::<Vec<_>>().into_iter() }
+  pub fn into_values(self) -> std::vec::IntoIter<V> { Self::ordered(self.items).into_iter().map(|(_, v)| v).collect::<Vec<_>>().into_iter() }
+  pub fn remove_entry<Q: ?Sized>(&mut self, k: &Q) -> Option<(K, V)> where K: std::borrow::Borrow<Q>, Q: Eq { self.pos(k).map(|i| self.items.remove(i)) }
+  pub fn get_key_value<Q: ?Sized>(&self, k: &Q) -> Option<(&K, &V)> where K: std::borrow::Borrow<Q>, Q: Eq { self.pos(k).map(|i| (&self.items[i].0, &self.items[i].1)) }
+  pub fn capacity(&self) -> usize { self.items.capacity() }
+  pub fn reserve(&mut self, n: usize) { self.items.reserve(n) }
+  pub fn shrink_to_fit(&mut self) { self.items.shrink_to_fit() }
+  /// `entry(k).or_insert(v)` / `.or_insert_with(f)` / `.or_default()` / `.and_modify(f)`
+  pub fn entry(&mut self, k: K) -> Entry<'_, K, V> { Entry { map: self, key: k } }
+}
+pub struct Entry<'a, K, V> { map: &'a mut HashMap<K, V>, key: K }
+impl<'a, K: Eq, V> Entry<'a, K, V> {
+  pub fn or_insert(self, v: V) -> &'a mut V { self.or_insert_with(|| v) }
+  pub fn or_insert_with<F: FnOnce() -> V>(self, f: F) -> &'a mut V {
+    let i = match self.map.pos(&self.key) { Some(i) => i, None => { self.map.items.push((self.key, f())); self.map.items.len() - 1 } };
+    &mut self.map.items[i].1
+  }
+  pub fn or_default(self) -> &'a mut V where V: Default { self.or_insert_with(V::default) }
+  pub fn and_modify<F: FnOnce(&mut V)>(self, f: F) -> Self {
+    if let Some(i) = self.map.pos(&self.key) { f(&mut self.map.items[i].1); }
+    self
+  }
+  pub fn key(&self) -> &K { &self.key }
+}
+impl<K: Eq, V> IntoIterator for HashMap<K, V> {
+  type Item = (K, V);
+  type IntoIter = std::vec::IntoIter<(K, V)>;
+  fn into_iter(self) -> Self::IntoIter { Self::ordered(self.items).into_iter() }
+}
+impl<'a, K: Eq, V> IntoIterator for &'a HashMap<K, V> {
+  type Item = (&'a K, &'a V);
+  type IntoIter = Box<dyn Iterator<Item = (&'a K, &'a V)> + 'a>;
+  fn into_iter(self) -> Self::IntoIter { self.iter() }
+}
+impl<K: Eq, V> FromIterator<(K, V)> for HashMap<K, V> {
+  fn from_iter<T: IntoIterator<Item = (K, V)>>(it: T) -> Self { let mut m = HashMap::new(); for (k, v) in it { m.insert(k, v); } m }
+}
+impl<K: Eq, V> Extend<(K, V)> for HashMap<K, V> {
+  fn extend<T: IntoIterator<Item = (K, V)>>(&mut self, it: T) { for (k, v) in it { self.insert(k, v); } }
+}
+impl<K: Eq, Q: ?Sized + Eq, V> std::ops::Index<&Q> for HashMap<K, V> where K: std::borrow::Borrow<Q> {
+  type Output = V;
+  fn index(&self, k: &Q) -> &V { self.get(k).expect("no entry found for key") }
 }
